@@ -315,7 +315,19 @@ func (g *claimGen) mutate(c crosschaintypes.ExternalClaim, field string) crossch
 		return g.migrate(c, field)
 	}
 	v := cloneClaim(c)
+	// a different value of a counter: the neighbour, or the same value plus 2^8 / 2^16 / 2^32 / 2^63 (equal
+	// after any narrowing conversion)
 	bump := func(x uint64) uint64 {
+		switch g.rng.IntN(6) {
+		case 0:
+			return x + 1<<8
+		case 1:
+			return x + 1<<16
+		case 2:
+			return x + 1<<32
+		case 3:
+			return x ^ 1<<63
+		}
 		if x == ^uint64(0) {
 			return x - 1
 		}
@@ -387,7 +399,7 @@ func (g *claimGen) mutate(c crosschaintypes.ExternalClaim, field string) crossch
 		case "symbol":
 			m.Symbol = m.Symbol + "y"
 		case "decimals":
-			m.Decimals++
+			m.Decimals = bump(m.Decimals)
 		case "channel_ibc":
 			m.ChannelIbc = differentHex(g, m.ChannelIbc)
 		case "height":
@@ -438,7 +450,7 @@ func (g *claimGen) mutate(c crosschaintypes.ExternalClaim, field string) crossch
 	case *crosschaintypes.MsgOracleSetUpdatedClaim:
 		switch field {
 		case "set_nonce":
-			m.OracleSetNonce++
+			m.OracleSetNonce = bump(m.OracleSetNonce)
 		case "member_power":
 			i := g.rng.IntN(len(m.Members))
 			m.Members[i].Power = bump(m.Members[i].Power)
